@@ -79,6 +79,21 @@ def main():
         print("CHECK-BROKEN exception in check", pid)
         sys.exit(2)
 
+    # thorough tier: the independent checker re-checks the property's compiled theorems and all they depend on
+    if a.tier == "thorough" and not a.replay:
+        try:
+            mods = ["Ink.Props." + pid]
+            if os.path.exists(os.path.join(vlib.VERIF, "theories", "Props", pid + "_spec.v")):
+                mods.append("Ink.Props." + pid + "_spec")
+            ck = vlib.coqchk(mods)
+            ctx.coverage["coqchk"] = dict(modules=mods, ok=ck["ok"], axioms=ck["axioms"])
+            if not ck["ok"]:
+                ctx.violation("coqchk does not accept the compiled theorems: %s %s %s" % (
+                    ck.get("outside_allow_list"), ck.get("unsafe"), ck["log"][-300:]),
+                    dict(theorem_file="theories/Props/%s.v" % pid, coqchk=ck), no_input=True)
+        except Exception:
+            traceback.print_exc()
+
     # a table that could not be regenerated from the (reshaped) sources: the theorems that rest on it
     # are not re-established for the code as it is now
     try:
